@@ -347,7 +347,7 @@ pub fn streams() -> Vec<Box<dyn AnyStream>> {
 
 pub const PROP: Prop = Prop {
     id: "C14",
-    rule: "stream terms/small-scope: well-formed enum terms (every constructor, images with every index 0..=n, nesting; built from bare variants and from constructors), every node of each term is checked (evaluations count nodes): extract_terms_to_vec vs get_components_including_placeholder (sequence for ordered, multiset for set-like), both vs the description, image placeholder at its recorded index and absent from get_components, get_compound_components ⇔ is_compound, category partition, capacity class table, the eight is_capacity_* predicates, component counts; stream lexical: extraction returns the stored components and category(x) = category(fold(x)); small-scope enumerates constructors × lists ≤ 4 over 5 atoms × all indices; non-trivial = root is a compound/statement; distinct = fingerprint of the case",
+    rule: "stream terms/small-scope: well-formed enum terms (every constructor, images with every index 0..=n, nesting; built from bare variants and from constructors), every node of each term is checked (evaluations count nodes): extract_terms_to_vec vs get_components_including_placeholder (sequence for ordered, multiset for set-like), both vs the description, image placeholder at its recorded index and absent from get_components, get_compound_components ⇔ is_compound, category partition, capacity class table, the eight is_capacity_* predicates, component counts; stream lexical (vocabulary-consistent, mirrored, near-valid and wild lexical terms): extraction returns the stored components and category(x) = category(fold(x)) whenever x folds; small-scope enumerates constructors × lists ≤ 4 over 5 atoms × all indices; non-trivial = root is a compound/statement; distinct = fingerprint of the case",
     assumptions: &["the constructor → category/capacity table is written in the harness from the property text"],
     streams,
 };
